@@ -12,7 +12,7 @@ from lib import common
 
 MODEL_RE = re.compile(
     r"^(\S+) T=(\S+)(?: FOLD=(.*?) RT=(.*?) CLEAN=(\d) STRICT=(\d) UB=(\d))?$")
-ASSIGN_RE = re.compile(r"^(\S+) ASSIGN=(.*?)(?: UB=(\d))?$")
+ASSIGN_RE = re.compile(r"^(\S+) ASSIGN=(.*?)(?: UB=(\d))?(?: FOLD=(.*))?$")
 TEXT_RE = re.compile(r"^(\S+) TEXT=(.*)$")
 KINDNAME = {"i": "int", "l": "long", "f": "float", "d": "double", "b": "int", "e": "int"}
 
